@@ -376,7 +376,7 @@ _CELLS = matrix_cells()
 
 
 def plan(tier: str) -> dict[str, Any]:
-    n = len(_CELLS) + (800 if tier == "quick" else 200000)
+    n = len(_CELLS) + (3000 if tier == "quick" else 600000)
     return {"cases": n, "budget_s": 60 if tier == "quick" else 1200, "min_per_shard": 40, "min_cases": len(_CELLS)}
 
 
